@@ -18,12 +18,13 @@ AuxOrders(keys) == LET asc == SetToSortSeq({<<k, k + 1>> : k \in keys}, LAMBDA p
 
 \* every block with n <= MaxTx transactions; aux keys and invalid indices range over
 \* 0..n (n itself is out of range); the invalid list is any sequence of length <= MaxInv
-\* (unsorted, with repetitions); tags below 5 have no invalid list
+\* (unsorted, with repetitions), present or absent under EVERY wrapper tag: the eras 2..5 share one block
+\* type, so a Shelley / Allegra / Mary wrapper decodes with an invalid list too and C30 is era-independent
 Blocks ==
-    UNION { { [tag |-> t, bodies |-> Ids(n), wits |-> Ids(n), aux |-> a, has_invalid |-> t >= 5, invalid |-> inv] :
+    UNION { { [tag |-> t, bodies |-> Ids(n), wits |-> Ids(n), aux |-> a, has_invalid |-> h, invalid |-> inv] :
                 a \in UNION {AuxOrders(ks) : ks \in SUBSET (0..n)},
-                inv \in (IF t >= 5 THEN SeqsUpTo(0..n, MaxInv) ELSE {<<>>}) } :
-            t \in 2..7, n \in 0..MaxTx }
+                inv \in (IF h THEN SeqsUpTo(0..n, MaxInv) ELSE {<<>>}) } :
+            t \in 2..7, n \in 0..MaxTx, h \in BOOLEAN }
 
 VARIABLES blk, cur, out, phase
 vars == <<blk, cur, out, phase>>
